@@ -302,5 +302,59 @@ theorem patRef_lookback_iff (ref : List (Candle F) → Int → Bool) (cs : List 
   · rintro ⟨k, h1, h2, h3, h4⟩
     exact ⟨k, ⟨by split <;> omega, by omega⟩, h2, h4⟩
 
+/-! ### the driver -/
+
+theorem patRef_congr {F : Type} [PyF F] (ref : List (Candle F) → Int → Bool) (cs cs' : List (Candle F))
+    (lb : Option Int) (i : Int) (h : ∀ j, 10 ≤ j → j ≤ i → ref cs' j = ref cs j) :
+    patRef ref cs' lb i = patRef ref cs lb i := by
+  have hat : ∀ j, j ≤ i → atRef ref cs' j = atRef ref cs j := by
+    intro j hj
+    unfold atRef
+    by_cases h10 : 10 ≤ j
+    · rw [h j h10 hj]
+    · simp [h10]
+  cases lb with
+  | none => exact hat i (le_refl i)
+  | some lb =>
+    simp only [patRef]
+    rw [Bool.eq_iff_iff, List.any_eq_true, List.any_eq_true]
+    constructor
+    · rintro ⟨x, hx, hp⟩
+      have := (mem_pyRange _ _ _).1 hx
+      exact ⟨x, hx, by rw [← hat x (by omega)]; exact hp⟩
+    · rintro ⟨x, hx, hp⟩
+      have := (mem_pyRange _ _ _).1 hx
+      exact ⟨x, hx, by rw [hat x (by omega)]; exact hp⟩
+
+/-- a pattern whose per-candle reference test is the same on two equally long lists gives the same
+answer on both, for every look-back and every index argument (default and invalid ones included) -/
+theorem pattern_invariant {F : Type} [PyF F] {one : List (Candle F) → Int → PyM Bool}
+    {ref : List (Candle F) → Int → Bool} (hspec : OneSpec one ref) (hc : OneCausal one)
+    (cs cs' : List (Candle F)) (hlen : cs'.length = cs.length)
+    (href : ∀ j : Int, 10 ≤ j → j < cs.length → ref cs' j = ref cs j) (lb index : Option Int) :
+    Pat.pattern one cs' lb index = Pat.pattern one cs lb index := by
+  have valid : ∀ i : Int, 0 ≤ i → i < cs.length →
+      Pat.pattern one cs' lb (some i) = Pat.pattern one cs lb (some i) := by
+    intro i h0 hi
+    rw [pattern_spec hspec cs' lb i h0 (by omega), pattern_spec hspec cs lb i h0 hi,
+      patRef_congr ref cs cs' lb i (fun j h10 hj => href j h10 (by omega))]
+  cases index with
+  | none =>
+    by_cases hne : 0 < cs.length
+    · rw [pattern_default one lb cs' (by omega), pattern_default one lb cs hne, hlen]
+      exact valid _ (by omega) (by omega)
+    · have e : cs = [] := List.eq_nil_of_length_eq_zero (by omega)
+      have e' : cs' = [] := List.eq_nil_of_length_eq_zero (by omega)
+      rw [e, e']
+  | some idx =>
+    cases hn : absIndex idx cs.length with
+    | none =>
+      simp only [Pat.pattern, hlen, hn]
+    | some i =>
+      obtain ⟨h0, hi, _⟩ := absIndex_some hn
+      rw [(pattern_causal hc lb).norm cs' idx i (by rw [hlen]; exact hn),
+        (pattern_causal hc lb).norm cs idx i hn]
+      exact valid i h0 hi
+
 end Ana
 end Hex
